@@ -28,7 +28,10 @@ type rangeAggIterator struct {
 	// window state
 	window   map[GroupingKey]Series
 	interval time.Duration
-	entry    SampledEntry
+	// offset is the offset modifier value: steps are evaluated at (T - offset), but
+	// reported at T.
+	offset time.Duration
+	entry  SampledEntry
 	// buffered whether last entry is buffered
 	buffered bool
 }
@@ -62,6 +65,11 @@ func RangeAggregation(
 		}
 	}
 
+	var offset time.Duration
+	if o := expr.Range.Offset; o != nil {
+		offset = o.Duration
+	}
+
 	return &rangeAggIterator{
 		iter: iter,
 
@@ -73,6 +81,7 @@ func RangeAggregation(
 
 		window:   map[GroupingKey]Series{},
 		interval: expr.Range.Range,
+		offset:   offset,
 	}, nil
 }
 
@@ -88,7 +97,7 @@ func (i *rangeAggIterator) Next(r *Step) bool {
 	i.fillWindow(windowStart, windowEnd)
 
 	// Aggregate the window.
-	r.Timestamp = otelstorage.NewTimestampFromTime(current)
+	r.Timestamp = otelstorage.NewTimestampFromTime(current.Add(i.offset))
 	r.Samples = r.Samples[:0]
 	for _, s := range i.window {
 		r.Samples = append(r.Samples, Sample{
